@@ -241,8 +241,12 @@ def c04(tier):
         for mut2 in (0, 1, 2):
             for code in ([0, 8] if tier == "quick" else [0] + [1 << i for i in range(8)]):
                 units.append(U(MACH, "VerifC04Race", weight=4, n=2, schema=code, mut=mut, mut2=mut2))
+    for g1 in (1, 2):
+        for mut2 in (0, 1, 2):
+            units.append(U(MACH, "VerifC04Race", weight=2, n=2, schema=0, mut=0, mut2=mut2, g1=g1))
     return {"units": units, "bounds": dict(MACH_BOUNDS, states="2 user states, schemas with at most one relation / Multi bit", schedules="2 goroutines, one mutation each: "
-                                       "the second call runs as one atomic block at any statement boundary of queueMutation / PrependMut / processQueue of the first "
+                                       "the second call runs as one atomic block at any statement boundary of queueMutation / PrependMut / processQueue / Eval of the first "
+                                       "(the first being a mutation or an Eval; also from inside the eval function) "
                                        "(incl. the window between the drain loop's last length check and the release of the processing flag) where the first holds no mutex", nesting="one mutation (Add/Remove/Set over any called set) issued from inside any one handler call, "
                                        "alone, after a CanAdd1 check from the same handler, or followed by an Eval whose context has already ended; "
                                        "quick tier: handlers never veto, thorough: symbolic veto table"),
@@ -273,6 +277,7 @@ def c06(tier):
             for s1 in ((3, 7) if tier == "quick" else range(1, 8)):
                 units.append(U(MACH, "VerifC06SharedCtx", weight=5, n=3, schema=0, k1=k1, k2=k2, s1=s1))
     units.append(U(MACH, "VerifC06QueryCtx", weight=3, n=2, schema=0))
+    units.append(U(MACH, "VerifC06Schema", weight=3, n=2, schema=0))
     codes = (16,) if tier == "quick" else (16, 20, 17, 8, 24)
     kinds = (6,) if tier == "quick" else (0, 1, 2, 6)
     for kind in kinds:
@@ -431,6 +436,8 @@ def _prepare_c15(repo, work, tier, spec, env):
         for sh in range(8):
             v = dict(u, params=dict(u["params"], depth=2, nshards=8, shard=sh))
             units.append(v)
+    # the supervisor's negotiation gates (real handlers on a struct literal)
+    units.append(U("./pkg/node", "VerifC15Gates"))
     spec["units"] = units
     return gen
 
@@ -441,8 +448,9 @@ def c15(tier):
     spec["prepare"] = _prepare_c15
     spec["bounds"] = {"schemas": "the shipped node schemas (Supervisor 36 states, Worker 24, Client 21, Bootstrap 9), dumped natively from the current source",
                       "histories": "every sequence of 2 single-state Add1/Remove1 mutations from the empty machine: no two members of a mutually-Removing group "
-                                   "(PoolStatus, PoolNormalized, WorkStatus, ...) active, Require closure"}
-    spec["outside"] = ["pool gates (ForkWorkerEnter, ForkingWorkerEnter, PoolReadyEnter/Exit, ErrWorkerState) and the worker map: not encoded in this revision",
+                                   "(PoolStatus, PoolNormalized, WorkStatus, ...) active, Require closure",
+                      "gates": "ForkWorkerEnter, min(), PoolReadyEnter, PoolReadyExit for Min/Max 0..6 and 0..7 tracked / ready workers (readyWorkers overridden by a counter)"}
+    spec["outside"] = ["ForkingWorkerEnter (bootstrap address), ErrWorkerState (TTL caches), readyWorkers' own filter and the worker-map writers: not encoded",
                        "event orders across real forks / RPC / TTL caches, Heartbeat and normalisation rounds", "histories longer than 2 mutations"]
     return spec
 
